@@ -247,6 +247,13 @@ func genCrash(rng *rand.Rand, tier string, emit func(string)) {
 				emit(fmt.Sprintf("run seed=%d point=%s k=%d writes=%d win=%d phase=3", rng.Intn(1<<30), p, k, w, 1+rng.Intn(3)))
 			}
 		}
+		// a torn WAL tail INSIDE one large Save: the crash point is armed in mid-history and one 300 kB write follows (the page writer
+		// has flushed a part of its record when the process dies); the node must come back with every acknowledged write
+		for _, p := range []string{"wal.entry.after", "persist.walsave.after"} {
+			if have[p] {
+				emit(fmt.Sprintf("run seed=%d point=%s k=1 writes=%d big=%d", rng.Intn(1<<30), p, 50+rng.Intn(30), 15+rng.Intn(25)))
+			}
+		}
 		// SIGKILL at arbitrary instants
 		nk := 4
 		if tier == "thorough" {
@@ -417,6 +424,10 @@ func childKVNode(args []string) {
 			}
 		case "w": // w <id> <cmd> <args…>   — proposed here, in the order received; answered when applied
 			id := f[1]
+			if f[2] == "setbig" && len(f) >= 5 { // setbig <key> <size>: a SET with a value of that many bytes (a raft entry, hence a WAL record, of that size)
+				sz, _ := strconv.Atoi(f[4])
+				f = []string{"w", id, "set", f[3], strings.Repeat("x", sz)}
+			}
 			cmd := mkCmd(append([]string{f[2], "default:crash:" + f[3]}, f[4:]...)...)
 			wh, ok := nn.Node.GetWriteHandler(f[2])
 			if !ok {
@@ -523,7 +534,14 @@ func startCrashChild(dir string, port int, engine string, env string, logName st
 	c.ExtraFiles = []*os.File{cr, rw}
 	lf, _ := os.Create(filepath.Join(dir, logName))
 	c.Stdout, c.Stderr = lf, lf
+	armFile := ""
+	if i := strings.Index(env, "|ARM="); i >= 0 {
+		env, armFile = env[:i], env[i+5:]
+	}
 	c.Env = append(os.Environ(), "VERIF_CRASH="+env)
+	if armFile != "" {
+		c.Env = append(c.Env, "VERIF_CRASH_ARM="+armFile)
+	}
 	if err := c.Start(); err != nil {
 		return nil, err
 	}
@@ -649,6 +667,8 @@ func newCrash(c *Ctx) func(string) string {
 				procs, _ := strconv.Atoi(a["procs"])
 				return runCrash3(c, seed, point, k, n, delay, win, role, phase, killAt, a["revive"] == "1", procs)
 			}
+			crashBigAt, _ = strconv.Atoi(a["big"])
+			defer func() { crashBigAt = 0 }()
 			return runCrash(c, seed, point, k, n, delay, win, killAfter, engine, phase)
 		})
 	}
@@ -658,8 +678,11 @@ func runCrash(c *Ctx, seed int64, point string, k, n, delay, win, killAfter int,
 	return runCrashOnce(c, seed, point, k, n, delay, win, killAfter, engine, phase, false)
 }
 
+var crashBigAt = 0 // run … big=<acks>: after that many acknowledgements the crash point is armed and ONE untracked 300 kB SET is sent
+
 func runCrashOnce(c *Ctx, seed int64, point string, k, n, delay, win, killAfter int, engine string, phase int, retried bool) string {
 	rng := rand.New(rand.NewSource(seed))
+	bigAt := crashBigAt
 	dir, err := ioutil.TempDir("", "zvh-crash-")
 	if err != nil {
 		return "err tempdir " + err.Error()
@@ -679,6 +702,11 @@ func runCrashOnce(c *Ctx, seed int64, point string, k, n, delay, win, killAfter 
 		if slow {
 			env += ":slow"
 		}
+	}
+	armFile := ""
+	if bigAt > 0 && env != "" {
+		armFile = filepath.Join(dir, "arm-crash-point")
+		env += "|ARM=" + armFile
 	}
 	if phase == 2 {
 		env, env2 = "", env
@@ -732,6 +760,9 @@ func runCrashOnce(c *Ctx, seed int64, point string, k, n, delay, win, killAfter 
 		died = "point"
 		alive := true
 		record := func(r rsp) {
+			if r.id < 1 || r.id > len(ws) {
+				return // the untracked big write
+			}
 			w := ws[r.id-1]
 			w.reply = r.reply
 			if r.reply == "e" {
@@ -759,6 +790,14 @@ func runCrashOnce(c *Ctx, seed int64, point string, k, n, delay, win, killAfter 
 					break loop
 				}
 				sent++
+				if armFile != "" && bigAt > 0 && answered >= bigAt {
+					// arm the crash point and send ONE untracked write whose raft entry is larger than the WAL page writer's
+					// buffer: the process dies inside wal.Save with a part of that record written (a torn tail)
+					bigAt = 0
+					ioutil.WriteFile(armFile, []byte("x"), 0644)
+					ch.in.WriteString("w 0 setbig kbig 300000\n")
+					c.Note("crash-big-write-armed")
+				}
 				if lifePoint == "kill" && lifeKill > 0 && answered-answered0 >= lifeKill {
 					time.Sleep(killFrac)
 					died = "kill"
